@@ -74,7 +74,7 @@ fn req(func: u8, seq: SeqSel, headers: Vec<ReqHeader>) -> Op {
 }
 
 fn intervening(rng: &mut Rng, a: &[ReqHeader], b: &[ReqHeader]) -> Vec<Op> {
-    match rng.below(16) {
+    match rng.below(19) {
         0 => vec![req(refapp::FUNC_READ, SeqSel::Next, vec![ReqHeader::all(60, 1)])],
         1 => vec![Op::Confirm { uns: rng.bool(), seq: if rng.bool() { ConfSel::Expected } else { ConfSel::Fixed(rng.below(16) as u8) }, from: Who::Master }],
         2 => vec![Op::Raw { bytes: vec![0xC0 | rng.below(16) as u8, 0x03, 0x0C, 0x01, 0x17], from: Who::Master, to: Dest::Own }],
@@ -104,7 +104,27 @@ fn intervening(rng: &mut Rng, a: &[ReqHeader], b: &[ReqHeader]) -> Vec<Op> {
         12 => vec![Op::Disable, Op::Enable, Op::Connect],
         13 => vec![req(refapp::FUNC_DIRECT_OPERATE, SeqSel::Next, b.to_vec())],
         14 => vec![req(refapp::FUNC_SELECT, SeqSel::Next, b.to_vec())],
-        _ => vec![Op::LinkStatusRequest],
+        15 => vec![Op::LinkStatusRequest],
+        _ => {
+            // a SELECT that is refused as a whole: the control headers of A or B followed (or preceded) by a header that
+            // does not belong in a SELECT - possibly retransmitted
+            let mut headers = if rng.chance(2, 3) { a.to_vec() } else { b.to_vec() };
+            let extra = match rng.below(3) {
+                0 => ReqHeader::all(60, 2),
+                1 => ReqHeader::all(1, 2),
+                _ => ReqHeader { group: 80, var: 1, range: refapp::Range::Range8(7, 7), data: vec![0] },
+            };
+            if rng.chance(3, 4) {
+                headers.push(extra);
+            } else {
+                headers.insert(0, extra);
+            }
+            let mut v = vec![req(refapp::FUNC_SELECT, SeqSel::Next, headers)];
+            for _ in 0..rng.below(3) {
+                v.push(Op::Repeat);
+            }
+            v
+        }
     }
 }
 
